@@ -12,7 +12,7 @@ OPTS = {'quick': {'selfcheck_mod': 150, 'budget_s': 280}, 'thorough': {'selfchec
 STEP_LIMIT = 1_500_000
 BOUNDS = {
     'quick': 'knowledge base = 21 fixed clauses (facts p/1 q/1 r/2 s/0 n/1 l/1 with two symbolic integers among the data; member/2, len/2, app/3, eq/2) plus one rule t($X) :- BODY and '
-             'optionally the fact t(z); BODY = every conjunction / disjunction / mixed shape of up to 3 goals (6 shapes) over a 7-goal menu (calls p q r, `=` with an atom and between variables, `<`) and all shapes of up to 2 goals over 14 goals (adds arithmetic `$Y = $X + 1`, facts with variables inside box(..) and list patterns, list patterns with a tail variable against closed lists, a fact `u($_)` followed by `u(5)`, facts made of `$_` only, duplicate facts, a fact followed by a rule for the same goal, eq($Y, 7), a 3-ary fact); 108 four-goal bodies `(G1 ; G2, G3), G4` in which the body-local variables first occur in a different order in each alternative; queries t($X) and t(b), and 16 queries asked directly of the base predicates with a variable in several argument positions, `$_`, list and compound arguments; up to 8 answers compared one by one (resolved query term up to renaming of unbound variables), then exhaustion; '
+             'optionally the fact t(z); BODY = every conjunction / disjunction / mixed shape of up to 3 goals (6 shapes) over a 7-goal menu (calls p q r, `=` with an atom and between variables, `<`) and all shapes of up to 2 goals over 14 goals (adds arithmetic `$Y = $X + 1`, facts with variables inside box(..) and list patterns, list patterns with a tail variable against closed lists, a fact `u($_)` followed by `u(5)`, facts made of `$_` only, stored lists whose last element is a list, duplicate facts, a fact followed by a rule for the same goal, eq($Y, 7), a 3-ary fact); 108 four-goal bodies `(G1 ; G2, G3), G4` in which the body-local variables first occur in a different order in each alternative; queries t($X) and t(b), and 16 queries asked directly of the base predicates with a variable in several argument positions, `$_`, list and compound arguments; up to 8 answers compared one by one (resolved query term up to renaming of unbound variables), then exhaustion; '
              'solve_all strings for a subset; the same programs from source text through parse_rule for 2-goal bodies',
     'thorough': 'all 6 shapes of up to 3 goals over an 18-goal menu (adds member, len, app, arithmetic and the facts with inner variables), queries also t($_) and a two-variable wrapper, source-text family for all shapes',
 }
@@ -27,7 +27,7 @@ MENU_T = MENU_Q + [gc('len', L(A('a'), X), Y), gc('app', L(X), L(A('z')), Y), gb
 def cases(tier, seed):
     out = []
     menu = (MENU_Q[:6] + MENU_Q[7:9]) if tier == 'quick' else MENU_T
-    extra_menu = [gc('h', X), gc('d', X), gc('d', A('a')), gc('eq', Y, I(7)), gc('pr', X, Y, Z), gc('h', Y), gc('l', L(X, tail=Y)), gc('l', L(Y, X, tail=Z)), gc('u', Y), gb('equal', Y, I(5)), gc('any', Y), gc('any2', X, Y), gc('u', X)]
+    extra_menu = [gc('h', X), gc('d', X), gc('d', A('a')), gc('eq', Y, I(7)), gc('pr', X, Y, Z), gc('h', Y), gc('l', L(X, tail=Y)), gc('l', L(Y, X, tail=Z)), gc('u', Y), gb('equal', Y, I(5)), gc('any', Y), gc('any2', X, Y), gc('u', X), gc('nl', X), gc('nl', L(X, Y)), gc('nl', L(Y, tail=X))]
     if tier == 'quick':
         bodies = P.bodies(menu[:7], 3) + [b for b in P.bodies(menu + extra_menu, 2) if any(g in extra_menu or g == menu[7] for g in (b[1] if b[0] in ('gand', 'gor') else (b,)))]
     else:
